@@ -193,6 +193,12 @@ def run(tier, seed, replay=None):
             gen = gramgen.statements(rng, 'mindsdb', 150 if tier == 'quick' else 3000)
         except Exception:
             gen = []
+        # constants and names holding every character that some dialect treats specially: what comes back is the rendering (or the
+        # tree's own string), not a text derived from it
+        for ch in ['`', '"', '%', ':', '\\\\', '?', ';', '--', '/*', '[', ']', '$', '{', '}']:
+            fixed += [f"select name from tbl where code = 'a{ch}b'", f"select '{ch}' as c, 'x{ch}y{ch}z' from t", f"insert into t (a) values ('{ch}')",
+                      f"update t set a = 'p{ch}' where b = '{ch}q'"]
+        fixed += ['select `a"b`, `c%d` from `t:u`', "select `x y` as `p q` from t where `x y` = 'r`s'"]
         texts = fixed + texts[len(SHAPES):] + gen
         if tier == 'quick':
             rng2 = random.Random(seed)
@@ -202,6 +208,7 @@ def run(tier, seed, replay=None):
     rows = []
     stats = {'trees': 0, 'calls': 0, 'rendered': 0, 'own_string': 0, 'raised_without_fallback': {}, 'unparsable': 0}
     leaks, mutations = {}, {}
+    content_bad = {}
     for sql in texts:
         try:
             tree0 = parse_sql(sql, 'mindsdb')
@@ -248,12 +255,24 @@ def run(tier, seed, replay=None):
             from mindsdb_sql.render import sqlalchemy_render as sr
             t3 = parse_sql(sql, 'mindsdb')
             raw_exc = None
+            ref_text = None
             try:
                 r3 = SqlalchemyRender(d)
                 stmt, _p = r3.get_query(t3, with_params=False)
-                (sr.render_ddl_query if isinstance(t3, (mast.CreateTable, mast.DropTables)) else sr.render_dml_query)(stmt, r3.dialect)
+                ref_text = (sr.render_ddl_query if isinstance(t3, (mast.CreateTable, mast.DropTables)) else sr.render_dml_query)(stmt, r3.dialect)
             except Exception as e:
                 raw_exc = e
+            # content judge (property text: "return either the SQLAlchemy rendering or the tree's own SQL string"): what a call
+            # returns is compared with the rendering obtained here step by step, or with str(tree) (for postgres the fallback
+            # has always removed back quotes from the tree's own string: accepted for the own string only)
+            own = before[1]
+            own_ok = {own} | ({own.replace('`', '')} if str(d).lower() in ('postgresql', 'postgres') else set())
+            for fb, o in zip((False, True), outs):
+                if o[0] != 'ok' or (sql, 'content') in content_bad:
+                    continue
+                good = (o[1] == ref_text) if ref_text is not None else (fb and o[1] in own_ok)
+                if not good and isinstance(ref_text, str) and isinstance(o[1], str):
+                    content_bad[(sql, 'content')] = (d, fb, o[1], ref_text, own)
             if any(o[0] == 'init' for o in outs):
                 leaks.setdefault((type(outs[0][1]).__name__, 'constructor', None), (sql, d, str(outs[0][1])[:150]))
                 continue
@@ -321,6 +340,10 @@ def run(tier, seed, replay=None):
             R.known_finding(f'{fd[0]["id"]}: {fd[0]["what"]}')
         else:
             R.violation({'sql': sql, 'dialect': d, 'tree_before': b[:300], 'tree_after': a[:300], 'what': 'rendering changed the tree it was given'})
+    for (sql, _), (d, fb, got, ref, own) in sorted(content_bad.items())[:3]:
+        R.violation({'sql': sql, 'dialect': d, 'with_failback': fb, 'returned': got[:400], 'sqlalchemy_rendering': ref[:400], 'own_string': own[:400],
+                     'what': "what get_string returns is neither the SQLAlchemy rendering of the tree nor the tree's own SQL string"})
+    stats['content_judged_bad'] = len(content_bad)
     if corr_bad and not any(not nf for _, nf in R.violations):
         sql, d, raw, a, b = rows[corr_bad[0]]
         R.violation({'what': f'model of the fallback control flow disagrees with get_string on `{sql}` ({d}): raw {raw}, observed {a} / {b}',
